@@ -151,7 +151,7 @@ def attach_list(cells):
     return out
 
 
-KANI_FEATURES = "formatting_options"
+KANI_FEATURES = "formatting_options, allocator_api"
 
 
 def attach_modules(src, files, cfg="kani"):
